@@ -1,9 +1,10 @@
 import PymocaVerif.Lemmas.SimplifyBase
 /-!
-# Simplify: the class structure of the alias relation (invariant of `AliasRelation.add`, counting)
-Helper lemmas for C14/C15.  Self-contained (does not use `Lemmas/AliasRel.lean` of C17): the
-invariant here is list-level (members of a class share *the same* list; the class of `-x` is the
-image of the class of `x`), which is what the model computes and what the counting needs.
+# Simplify: the class structure of the alias relation (invariant `WF` of `AliasRelation.add`, the
+counting lemma "one more non-canonical name per effective add", and — for a later pass under
+iterative simplification — the names handled before: `Ext`, `handledB`, `elim_now_count`)
+Helper lemmas for C14/C15.  Self-contained (does not use C17's lemma files): the invariant here is
+list-level (members of a class share *the same* list; the class of `-x` is the image of the class of `x`).
 -/
 set_option linter.unusedSectionVars false
 set_option linter.unusedSimpArgs false
@@ -38,6 +39,7 @@ structure WF (s : AR) : Prop where
   neg : ∀ x A, s.al x = some A → s.al (tog x) = some (A.map tog)
   nodup : ∀ x A, s.al x = some A → A.Nodup
   noself : ∀ x A, s.al x = some A → tog x ∉ A
+  size : ∀ x A, s.al x = some A → 2 ≤ A.length
   cm_some : ∀ x A, s.al x = some A → ∃ c, s.cmap x = some c ∧ (c.2, c.1) ∈ A
   cm_none : ∀ x, s.al x = none → s.cmap x = none
   cm_class : ∀ x A y, s.al x = some A → y ∈ A → s.cmap y = s.cmap x
@@ -248,7 +250,7 @@ theorem WF.add_wf {s s' : AR} (h : WF s) {a b : SName} (hb : b ∉ s.aliases a) 
   rw [add_eq hb hs]
   generalize hA' : s.aliases a ++ s.aliases b = A' at *
   rw [hI]
-  refine ⟨?_, ?_, ?_, ?_, ?_, ?_, ?_, ?_, ?_, ?_, ?_⟩
+  refine ⟨?_, ?_, ?_, ?_, ?_, ?sz, ?_, ?_, ?_, ?_, ?_, ?_⟩
   · -- self
     intro x B hx
     simp only at hx
@@ -308,6 +310,17 @@ theorem WF.add_wf {s s' : AR} (h : WF s) {a b : SName} (hb : b ∉ s.aliases a) 
         intro hin
         exact hx1 (by simpa using mem_map_tog.1 hin)
       · exact h.noself x B hx
+  case sz =>
+    have hla : 1 ≤ (s.aliases a).length := List.length_pos_of_mem (h.aliases_self a)
+    have hlb : 1 ≤ (s.aliases b).length := List.length_pos_of_mem (h.aliases_self b)
+    have hlen : 2 ≤ A'.length := by rw [← hA', List.length_append]; omega
+    intro x B hx
+    simp only at hx
+    split at hx
+    · simp at hx; subst hx; exact hlen
+    · split at hx
+      · simp at hx; subst hx; simpa using hlen
+      · exact h.size x B hx
   · -- cm_some
     intro x B hx
     simp only at hx ⊢
@@ -653,5 +666,363 @@ theorem elimCount_add : elimCount s' = elimCount s + 1 := by
     simp only [hmem, hca, hcb, if_false, hnew]; omega
 
 end addfacts
+
+/-- the canonical name of a recorded class is listed in `canonical_variables` -/
+theorem WF.canon_in_cv' {s : AR} (h : WF s) {a : SName} {A : List SName} (hal : s.al a = some A) :
+    (s.canonicalSigned a).1 ∈ s.cv := by
+  have hm := h.canon_mem a
+  rw [h.cv_iff]
+  obtain ⟨c, hc, _⟩ := h.cm_some a A hal
+  have hcs : s.canonicalSigned a = c := by simp [AR.canonicalSigned, hc]
+  cases hsg : (s.canonicalSigned a).2 with
+  | false =>
+    rw [hsg] at hm
+    have hmA : (false, (s.canonicalSigned a).1) ∈ A := by simpa [AR.aliases, hal] using hm
+    rw [h.cm_class a A _ hal hmA, hc, ← hcs]
+    exact congrArg some (Prod.ext rfl hsg)
+  | true =>
+    rw [hsg] at hm
+    have hmA : (true, (s.canonicalSigned a).1) ∈ A := by simpa [AR.aliases, hal] using hm
+    have e1 : s.cmap (true, (s.canonicalSigned a).1) = some c := by rw [h.cm_class a A _ hal hmA, hc]
+    have e2 := h.cm_neg _ _ e1
+    have : tog (true, (s.canonicalSigned a).1) = (false, (s.canonicalSigned a).1) := rfl
+    rw [this] at e2
+    rw [e2, ← hcs, hsg]; rfl
+
+/-! ## the base names the elimination loop walks over -/
+
+/-- `n` belongs to a recorded class without being its canonical name -/
+def NonCanon (s : AR) (n : String) : Prop := s.al (false, n) ≠ none ∧ n ∉ s.cv
+
+/-- the non-canonical members of the class of the canonical name `c` -/
+def classRest (s : AR) (c : String) : List SName := (s.aliases (false, c)).filter (· != (false, c))
+
+/-- base names of all non-canonical members, class by class -/
+def restNames (s : AR) : List String := s.cv.flatMap fun c => (classRest s c).map (·.2)
+
+theorem WF.al_tog {s : AR} (h : WF s) {x : SName} (hx : s.al x ≠ none) : s.al (tog x) ≠ none := by
+  cases hal : s.al x with
+  | none => exact absurd hal hx
+  | some A => rw [h.neg x A hal]; simp
+
+theorem WF.al_of_mem {s : AR} (h : WF s) {x y : SName} (hx : s.al x ≠ none) (hy : y ∈ s.aliases x) : s.al y ≠ none := by
+  cases hal : s.al x with
+  | none => exact absurd hal hx
+  | some A =>
+    have : y ∈ A := by simpa [AR.aliases, hal] using hy
+    rw [h.shared x A y hal this]; simp
+
+theorem WF.cv_al {s : AR} (h : WF s) {c : String} (hc : c ∈ s.cv) : s.al (false, c) ≠ none := by
+  intro hal
+  have := (h.cv_iff c).1 hc
+  rw [h.cm_none _ hal] at this
+  simp at this
+
+theorem WF.cv_canon {s : AR} (h : WF s) {c : String} (hc : c ∈ s.cv) : s.canonicalSigned (false, c) = (c, false) := by
+  simp [AR.canonicalSigned, (h.cv_iff c).1 hc]
+
+/-- a non-canonical member of the class of a canonical name has another base name, which is not canonical -/
+theorem WF.rest_base {s : AR} (h : WF s) {c : String} (hc : c ∈ s.cv) {a : SName} (ha : a ∈ classRest s c) :
+    a.2 ≠ c ∧ a.2 ∉ s.cv := by
+  obtain ⟨hmem, hne⟩ := List.mem_filter.1 ha
+  have hne' : a ≠ (false, c) := by simpa using hne
+  have hcs := h.cv_canon hc
+  have hbase : a.2 ≠ c := by
+    intro e
+    obtain ⟨sg, n⟩ := a
+    simp only at e; subst e
+    cases sg
+    · exact hne' rfl
+    · exact h.aliases_noself (false, n) (by simpa [tog] using hmem)
+  refine ⟨hbase, ?_⟩
+  intro hcv
+  have h1 := h.cv_canon hcv
+  have h2 : s.canonicalSigned a = (c, false) := by rw [h.canon_class hmem, hcs]
+  obtain ⟨sg, n⟩ := a
+  cases sg
+  · rw [h1] at h2; exact hbase (by simpa using congrArg Prod.fst h2)
+  · have h3 := h.canon_tog (false, n)
+    rw [h1] at h3
+    have : tog (false, n) = (true, n) := rfl
+    rw [this, h2] at h3
+    exact hbase (by simpa using (congrArg Prod.fst h3).symm)
+
+theorem WF.mem_restNames {s : AR} (h : WF s) (n : String) : n ∈ restNames s ↔ NonCanon s n := by
+  unfold restNames NonCanon
+  simp only [List.mem_flatMap, List.mem_map]
+  constructor
+  · rintro ⟨c, hc, a, ha, rfl⟩
+    have hb := h.rest_base hc ha
+    refine ⟨?_, hb.2⟩
+    have hmem := (List.mem_filter.1 ha).1
+    have hal := h.al_of_mem (h.cv_al hc) hmem
+    obtain ⟨sg, m⟩ := a
+    cases sg
+    · exact hal
+    · exact h.al_tog hal
+  · rintro ⟨hal, hncv⟩
+    cases hA : s.al (false, n) with
+    | none => exact absurd hA hal
+    | some A =>
+      have hcv := h.canon_in_cv' hA
+      have hm := h.canon_mem (false, n)
+      have hne : (s.canonicalSigned (false, n)).1 ≠ n := by
+        intro e
+        cases hsg : (s.canonicalSigned (false, n)).2 with
+        | false =>
+          apply hncv
+          rw [h.cv_iff]
+          obtain ⟨c, hc, _⟩ := h.cm_some _ A hA
+          have : s.canonicalSigned (false, n) = c := by simp [AR.canonicalSigned, hc]
+          rw [hc, ← this]
+          exact congrArg some (Prod.ext e hsg)
+        | true =>
+          rw [hsg, e] at hm
+          exact h.aliases_noself (false, n) (by simpa [tog] using hm)
+      refine ⟨(s.canonicalSigned (false, n)).1, hcv, ?_⟩
+      cases hsg : (s.canonicalSigned (false, n)).2 with
+      | false =>
+        rw [hsg] at hm
+        refine ⟨(false, n), List.mem_filter.2 ⟨h.aliases_symm hm, ?_⟩, rfl⟩
+        simpa using fun e => hne e.symm
+      | true =>
+        rw [hsg] at hm
+        have h1 : tog (true, (s.canonicalSigned (false, n)).1) ∈ s.aliases (tog (false, n)) := by
+          rw [h.aliases_tog]; exact List.mem_map_of_mem hm
+        have h2 := h.aliases_symm h1
+        refine ⟨(true, n), List.mem_filter.2 ⟨by simpa [tog] using h2, by simp⟩, rfl⟩
+
+theorem filter_ne_length'' {α} [BEq α] [LawfulBEq α] : ∀ (xs : List α) (a : α), xs.Nodup → a ∈ xs →
+    (xs.filter (· != a)).length + 1 = xs.length
+  | [], a, _, h => by simp at h
+  | x :: xs, a, hnd, hmem => by
+    simp only [List.nodup_cons] at hnd
+    by_cases hx : x = a
+    · subst hx
+      have : xs.filter (· != x) = xs := by
+        rw [List.filter_eq_self]; intro y hy
+        have : y ≠ x := fun e => hnd.1 (e ▸ hy)
+        simpa using this
+      simp [List.filter_cons, this]
+    · have hm : a ∈ xs := by
+        rcases List.mem_cons.1 hmem with h | h
+        · exact absurd h.symm hx
+        · exact h
+      have hx' : (x != a) = true := by simpa using hx
+      simp only [List.filter_cons, hx', if_true, List.length_cons]
+      have := filter_ne_length'' xs a hnd.2 hm
+      omega
+
+theorem WF.classRest_length {s : AR} (h : WF s) (c : String) : (classRest s c).length = (s.aliases (false, c)).length - 1 := by
+  have := filter_ne_length'' (s.aliases (false, c)) (false, c) (h.aliases_nodup (false, c)) (h.aliases_self (false, c))
+  exact Nat.eq_sub_of_add_eq this
+
+theorem WF.restNames_length {s : AR} (h : WF s) : (restNames s).length = elimCount s := by
+  unfold restNames elimCount
+  rw [List.length_flatMap]
+  congr 1
+  apply List.map_congr_left
+  intro c _
+  rw [List.length_map, h.classRest_length]
+
+/-- two members of one class with the same base name are the same signed name -/
+theorem WF.same_base {s : AR} (h : WF s) {x a a' : SName} (ha : a ∈ s.aliases x) (ha' : a' ∈ s.aliases x) (hb : a.2 = a'.2) :
+    a = a' := by
+  obtain ⟨s1, n1⟩ := a
+  obtain ⟨s2, n2⟩ := a'
+  simp only at hb; subst hb
+  by_cases hs : s1 = s2
+  · rw [hs]
+  · exfalso
+    have : (s2, n1) = tog (s1, n1) := by cases s1 <;> cases s2 <;> simp_all [tog]
+    rw [this] at ha'
+    exact h.no_both ha ha'
+
+theorem WF.classRest_names_nodup {s : AR} (h : WF s) (c : String) : ((classRest s c).map (·.2)).Nodup := by
+  have hnd : (classRest s c).Nodup := (h.aliases_nodup (false, c)).sublist List.filter_sublist
+  have hsub : ∀ a ∈ classRest s c, a ∈ s.aliases (false, c) := fun a ha => (List.mem_filter.1 ha).1
+  generalize classRest s c = l at hnd hsub
+  induction l with
+  | nil => simp
+  | cons x xs ih =>
+    simp only [List.map_cons, List.nodup_cons] at hnd ⊢
+    refine ⟨?_, ih hnd.2 (fun a ha => hsub a (List.mem_cons_of_mem _ ha))⟩
+    intro hin
+    obtain ⟨y, hy, hyx⟩ := List.mem_map.1 hin
+    have := h.same_base (hsub y (List.mem_cons_of_mem _ hy)) (hsub x (by simp)) hyx
+    subst this
+    exact hnd.1 hy
+
+theorem WF.classRest_disjoint {s : AR} (h : WF s) {c c' : String} (hc : c ∈ s.cv) (hc' : c' ∈ s.cv) (hne : c ≠ c')
+    {n : String} (h1 : n ∈ (classRest s c).map (·.2)) (h2 : n ∈ (classRest s c').map (·.2)) : False := by
+  obtain ⟨a, ha, rfl⟩ := List.mem_map.1 h1
+  obtain ⟨a', ha', hb⟩ := List.mem_map.1 h2
+  have hm := (List.mem_filter.1 ha).1
+  have hm' := (List.mem_filter.1 ha').1
+  have k1 : s.canonicalSigned a = (c, false) := by rw [h.canon_class hm, h.cv_canon hc]
+  have k2 : s.canonicalSigned a' = (c', false) := by rw [h.canon_class hm', h.cv_canon hc']
+  obtain ⟨s1, n1⟩ := a
+  obtain ⟨s2, n2⟩ := a'
+  simp only at hb; subst hb
+  by_cases hs : s1 = s2
+  · subst hs
+    rw [k1] at k2
+    exact hne (by simpa using congrArg Prod.fst k2)
+  · have : (s2, n2) = tog (s1, n2) := by cases s1 <;> cases s2 <;> simp_all [tog]
+    rw [this, h.canon_tog, k1] at k2
+    simp at k2
+
+theorem WF.restNames_nodup {s : AR} (h : WF s) : (restNames s).Nodup := by
+  unfold restNames
+  have key : ∀ (cs : List String), cs.Nodup → (∀ c ∈ cs, c ∈ s.cv) →
+      (cs.flatMap fun c => (classRest s c).map (·.2)).Nodup := by
+    intro cs
+    induction cs with
+    | nil => intro _ _; simp
+    | cons c cs ih =>
+      intro hnd hsub
+      simp only [List.nodup_cons] at hnd
+      simp only [List.flatMap_cons, List.nodup_append]
+      refine ⟨h.classRest_names_nodup c, ih hnd.2 (fun x hx => hsub x (List.mem_cons_of_mem _ hx)), ?_⟩
+      intro n hn m hm hnm
+      subst hnm
+      obtain ⟨c', hc', hin⟩ := List.mem_flatMap.1 hm
+      exact h.classRest_disjoint (hsub c (by simp)) (hsub c' (List.mem_cons_of_mem _ hc'))
+        (fun e => hnd.1 (e ▸ hc')) hn hin
+  exact key s.cv h.cv_nodup (fun c hc => hc)
+
+/-! ## a later pass: what was handled before -/
+
+/-- `s` extends `old`: recorded classes stay recorded, and a canonical name of `s` was canonical or unrecorded in `old` -/
+structure Ext (old s : AR) : Prop where
+  al : ∀ x, old.al x ≠ none → s.al x ≠ none
+  cv : ∀ c ∈ s.cv, c ∈ old.cv ∨ old.al (false, c) = none
+
+theorem Ext.refl (s : AR) : Ext s s := ⟨fun _ h => h, fun c hc => Or.inl hc⟩
+
+theorem Ext.add {old s s' : AR} (he : Ext old s) (h : WF s) {a b : SName} (hb : b ∉ s.aliases a)
+    (hs : s.add a b = some s') : Ext old s' := by
+  constructor
+  · intro x hx
+    have := he.al x hx
+    rw [add_eq hb hs]
+    simp only
+    split
+    · simp
+    · split
+      · simp
+      · exact this
+  · intro c hc
+    rw [add_eq hb hs] at hc
+    simp only [List.mem_filter] at hc
+    have hc1 := hc.1
+    split at hc1
+    · exact he.cv c hc1
+    · rcases List.mem_append.1 hc1 with h1 | h1
+      · exact he.cv c h1
+      · simp at h1; subst h1
+        cases hal : s.al a with
+        | some A => exact he.cv _ (h.canon_in_cv' hal)
+        | none =>
+          right
+          have hcs : s.canonicalSigned a = (a.2, a.1) := by simp [AR.canonicalSigned, h.cm_none a hal]
+          rw [hcs]
+          by_cases hn : old.al (false, a.2) = none
+          · exact hn
+          · exfalso
+            have h2 := he.al _ hn
+            obtain ⟨sg, n⟩ := a
+            cases sg
+            · exact h2 hal
+            · exact h.al_tog h2 hal
+
+theorem Ext.nonCanon {old s : AR} (he : Ext old s) {n : String} (hn : NonCanon old n) : NonCanon s n := by
+  refine ⟨he.al _ hn.1, ?_⟩
+  intro hc
+  rcases he.cv n hc with h1 | h1
+  · exact hn.2 h1
+  · exact hn.1 h1
+
+/-- "handled in a previous pass", as a function of the base name -/
+def handledB (old : AR) (n : String) : Bool := (old.al (false, n)).isSome && !(old.cv.contains n)
+
+theorem handledB_iff (old : AR) (n : String) : handledB old n = true ↔ NonCanon old n := by
+  unfold handledB NonCanon
+  cases h : old.al (false, n) <;> simp
+
+theorem eraseDups_of_nodup' {α} [BEq α] [LawfulBEq α] : ∀ (l : List α), l.Nodup → l.eraseDups = l
+  | [], _ => by simp
+  | x :: xs, h => by
+    simp only [List.nodup_cons] at h
+    rw [List.eraseDups_cons]
+    have : xs.filter (fun b => !b == x) = xs := by
+      rw [List.filter_eq_self]; intro y hy
+      have : y ≠ x := fun e => h.1 (e ▸ hy)
+      simpa using this
+    rw [this, eraseDups_of_nodup' xs h.2]
+
+theorem WF.alreadyHandled_eq {old : AR} (h : WF old) (a : SName) : alreadyHandled old a = handledB old a.2 := by
+  unfold alreadyHandled handledB
+  rw [eraseDups_of_nodup' _ (h.aliases_nodup a)]
+  have hlen : decide ((old.aliases a).length > 1) = (old.al (false, a.2)).isSome := by
+    cases hal : old.al a with
+    | none =>
+      have : old.al (false, a.2) = none := by
+        by_cases hn : old.al (false, a.2) = none
+        · exact hn
+        · exfalso
+          obtain ⟨sg, n⟩ := a
+          cases sg
+          · exact hn hal
+          · exact h.al_tog hn hal
+      simp [AR.aliases, hal, this]
+    | some A =>
+      have h2 := h.size a A hal
+      have : old.al (false, a.2) ≠ none := by
+        obtain ⟨sg, n⟩ := a
+        cases sg
+        · rw [hal]; simp
+        · have := h.al_tog (x := (true, n)) (by rw [hal]; simp)
+          simpa [tog] using this
+      cases h3 : old.al (false, a.2) with
+      | none => exact absurd h3 this
+      | some B => simp [AR.aliases, hal]; omega
+  rw [hlen]
+
+theorem WF.newAliases_eq {old ar : AR} (ho : WF old) (hw : WF ar) (c : String) :
+    newAliases old ar c = (classRest ar c).filter (fun a => !handledB old a.2) := by
+  unfold newAliases classRest
+  rw [eraseDups_of_nodup' _ (hw.aliases_nodup (false, c))]
+  apply List.filter_congr
+  intro a _
+  rw [ho.alreadyHandled_eq]
+
+theorem newAliases_total {old ar : AR} (ho : WF old) (hw : WF ar) :
+    ∀ (cs : List String), (cs.map fun c => (newAliases old ar c).length).sum =
+      ((cs.flatMap fun c => (classRest ar c).map (·.2)).filter (fun n => !handledB old n)).length
+  | [] => by simp
+  | c :: cs => by
+    simp only [List.map_cons, List.sum_cons, List.flatMap_cons, List.filter_append, List.length_append]
+    rw [newAliases_total ho hw cs, ho.newAliases_eq hw, List.filter_map, List.length_map]
+    rfl
+
+/-- the names a pass eliminates now: as many as `elimCount` grew since the pass started -/
+theorem elim_now_count {old ar : AR} (ho : WF old) (hw : WF ar) (he : Ext old ar) :
+    (ar.cv.map fun c => (newAliases old ar c).length).sum + elimCount old = elimCount ar := by
+  rw [newAliases_total ho hw ar.cv]
+  have hsplit := (List.filter_append_perm (fun n => handledB old n) (restNames ar)).length_eq
+  rw [List.length_append] at hsplit
+  have hperm : ((restNames ar).filter (fun n => handledB old n)).Perm (restNames old) := by
+    rw [List.perm_ext_iff_of_nodup (hw.restNames_nodup.sublist List.filter_sublist) ho.restNames_nodup]
+    intro n
+    rw [List.mem_filter, hw.mem_restNames, ho.mem_restNames, handledB_iff]
+    constructor
+    · exact fun h => h.2
+    · exact fun h => ⟨he.nonCanon h, h⟩
+  have := hperm.length_eq
+  rw [ho.restNames_length] at this
+  rw [hw.restNames_length] at hsplit
+  unfold restNames at hsplit this
+  omega
 
 end PymocaVerif.Simplify
